@@ -1,112 +1,2 @@
-(* GENERATED by gen/gen_consts.py from the current /repo sources -- do not edit *)
-From Coq Require Import ZArith List.
-Import ListNotations.
-Local Open Scope Z_scope.
-
-(* mfhdf/src/mfhdf.h *)
-Definition FILL_BYTE : Z := (-127).
-Definition FILL_CHAR : Z := 0.
-Definition FILL_SHORT : Z := (-32767).
-Definition FILL_LONG : Z := (-2147483647).
-Definition SD_FILL : Z := 0.
-Definition SD_NOFILL : Z := 256.
-Definition SD_UNLIMITED : Z := 0.
-(* mfhdf/src/nc_priv.h *)
-Definition NC_UNLIMITED : Z := 0.
-Definition NC_NOFILL : Z := 256.
-Definition NC_FILL : Z := 0.
-Definition NC_BYTE : Z := 1.
-Definition NC_CHAR : Z := 2.
-Definition NC_SHORT : Z := 3.
-Definition NC_LONG : Z := 4.
-Definition NC_FLOAT : Z := 5.
-Definition NC_DOUBLE : Z := 6.
-(* hdf/src/hlimits.h *)
-Definition H4_MAX_VAR_DIMS : Z := 32.
-(* mfhdf/src/putget.c *)
-Definition MAX_SIZE : Z := 1000000.
-(* hdf/src/hntdefs.h *)
-Definition DFNT_NATIVE : Z := 4096.
-Definition DFNT_LITEND : Z := 16384.
-Definition DFNT_UCHAR8 : Z := 3.
-Definition DFNT_CHAR8 : Z := 4.
-Definition DFNT_INT8 : Z := 20.
-Definition DFNT_UINT8 : Z := 21.
-Definition DFNT_INT16 : Z := 22.
-Definition DFNT_UINT16 : Z := 23.
-Definition DFNT_INT32 : Z := 24.
-Definition DFNT_UINT32 : Z := 25.
-Definition DFNT_FLOAT32 : Z := 5.
-Definition DFNT_FLOAT64 : Z := 6.
-(* mfhdf/src/cdf.c: switch in hdf_unmap_type, returned constants (after preprocessing) *)
-Definition hdf_unmap_type_switch : list (Z * Z) :=
-  [(4, 2);
-   (3, 2);
-   (20, 1);
-   (21, 1);
-   (22, 3);
-   (23, 3);
-   (24, 4);
-   (25, 4);
-   (5, 5);
-   (6, 6)].
-(* hdf/src/dfconv.c: switch in DFKNTsize, returned constants (after preprocessing) *)
-Definition DFKNTsize_switch : list (Z * Z) :=
-  [(4099, 1);
-   (4100, 1);
-   (4116, 1);
-   (4117, 1);
-   (4118, 2);
-   (4119, 2);
-   (4120, 4);
-   (4121, 4);
-   (4101, 4);
-   (4102, 8);
-   (3, 1);
-   (4, 1);
-   (20, 1);
-   (21, 1);
-   (22, 2);
-   (23, 2);
-   (24, 4);
-   (25, 4);
-   (5, 4);
-   (6, 8)].
-(* mfhdf/src/mfsd.c: SDreaddata: (Stride[0] * (End[0] - 1)) >= (dimsize - Start[0]) *)
-Definition sdread_stride_bad0 (Stride0 : Z) (End0 : Z) (dimsize : Z) (Start0 : Z) : Z := (if Z.leb (Z.sub dimsize Start0) (Z.mul Stride0 (Z.sub End0 1)) then 1 else 0).
-(* mfhdf/src/mfsd.c: SDreaddata: (Stride[i] * (End[i] - 1)) >= ((int32)var->shape[i] - Start[i]) *)
-Definition sdread_stride_badi (Stride_i : Z) (End_i : Z) (shape_i : Z) (Start_i : Z) : Z := (if Z.leb (Z.sub shape_i Start_i) (Z.mul Stride_i (Z.sub End_i 1)) then 1 else 0).
-(* mfhdf/src/putget.c: H4_NCcoordck: *ip < 0 || *ip >= (long)*up *)
-Definition coordck_bad (ip : Z) (up : Z) : Z := (if orb (negb (Z.eqb (if Z.ltb ip 0 then 1 else 0) 0)) (negb (Z.eqb (if Z.leb up ip then 1 else 0) 0)) then 1 else 0).
-(* mfhdf/src/putget.c: H4_NCcoordck: *coords < 0 *)
-Definition coordck_bad_rec (coords0 : Z) : Z := (if Z.ltb coords0 0 then 1 else 0).
-(* mfhdf/src/putget.c: H4_NCcoordck: unfilled >= 0 *)
-Definition coordck_fill_more (unfilled : Z) : Z := (if Z.leb 0 unfilled then 1 else 0).
-(* mfhdf/src/putget.c: H4_NCcoordck: (((vp->numrecs) > (( *ip + 1))) ? (vp->numrecs) : (( *ip + 1))) *)
-Definition coordck_new_numrecs (numrecs : Z) (ip : Z) : Z := (if Z.eqb (if Z.ltb (Z.add ip 1) numrecs then 1 else 0) 0 then (Z.add ip 1) else numrecs).
-(* mfhdf/src/putget.c: NCvcmaxcontig: *edp > *shp - *orp || *edp < 0 *)
-Definition maxcontig_bad (edp : Z) (shp : Z) (orp : Z) : Z := (if orb (negb (Z.eqb (if Z.ltb (Z.sub shp orp) edp then 1 else 0) 0)) (negb (Z.eqb (if Z.ltb edp 0 then 1 else 0) 0)) then 1 else 0).
-(* mfhdf/src/putget.c: NCvcmaxcontig: *edp < *shp *)
-Definition maxcontig_break (edp : Z) (shp : Z) : Z := (if Z.ltb edp shp then 1 else 0).
-(* mfhdf/src/putget.c: NCsimplerecio: ( *start + *edges) - vp->numrecs *)
-Definition simplerec_newrecs (start0 : Z) (edges0 : Z) (numrecs : Z) : Z := (Z.sub (Z.add start0 edges0) numrecs).
-(* mfhdf/src/putget.c: NCsimplerecio: *edges <= 0 *)
-Definition simplerec_bad_edge (edges0 : Z) : Z := (if Z.leb edges0 0 then 1 else 0).
-(* mfhdf/src/putget.c: hdf_xdr_NCvdata: vp->len - (where + byte_count) *)
-Definition vdata_bytes_left (len : Z) (where_ : Z) (byte_count : Z) : Z := (Z.sub len (Z.add where_ byte_count)).
-(* mfhdf/src/putget.c: hdf_xdr_NCvdata: elem_length <= 0 && where > 0 *)
-Definition vdata_lead_fill (elem_length : Z) (where_ : Z) : Z := (if andb (negb (Z.eqb (if Z.leb elem_length 0 then 1 else 0) 0)) (negb (Z.eqb (if Z.ltb 0 where_ then 1 else 0) 0)) then 1 else 0).
-(* mfhdf/src/putget.c: hdf_xdr_NCvdata: elem_length <= 0 && bytes_left > 0 *)
-Definition vdata_trail_fill (elem_length : Z) (bytes_left : Z) : Z := (if andb (negb (Z.eqb (if Z.leb elem_length 0 then 1 else 0) 0)) (negb (Z.eqb (if Z.ltb 0 bytes_left then 1 else 0) 0)) then 1 else 0).
-(* mfhdf/src/putgetg.c: H4_NCgenio: stride[idim] < 1 *)
-Definition genio_bad_stride (stride_i : Z) : Z := (if Z.ltb stride_i 1 then 1 else 0).
-(* mfhdf/src/putgetg.c: H4_NCgenio: mystart[idim] + mycount[idim] * mystride[idim] *)
-Definition genio_stop (mystart : Z) (mycount : Z) (mystride : Z) : Z := (Z.add mystart (Z.mul mycount mystride)).
-(* mfhdf/src/putgetg.c: H4_NCgenio: mystart[idim] >= stop[idim] *)
-Definition genio_carry (mystart : Z) (stop : Z) : Z := (if Z.leb stop mystart then 1 else 0).
-(* mfhdf/src/putgetg.c: H4_NCgenio: mystride[maxidim] == 1 && myimap[maxidim] == vp->szof *)
-Definition genio_unit_last (mystride : Z) (myimap : Z) (szof : Z) : Z := (if andb (negb (Z.eqb (if Z.eqb mystride 1 then 1 else 0) 0)) (negb (Z.eqb (if Z.eqb myimap szof then 1 else 0) 0)) then 1 else 0).
-(* mfhdf/src/mfhdf.h: #define FILL_FLOAT 9.9692099683868690e+36F  (IEEE-754 image, 4 bytes) *)
-Definition FILL_FLOAT_bits : Z := 2096103424.
-(* mfhdf/src/mfhdf.h: #define FILL_DOUBLE 9.9692099683868690e+36  (IEEE-754 image, 8 bytes) *)
-Definition FILL_DOUBLE_bits : Z := 5160562223013167104.
+(* GENERATED: translator failed: mfhdf/src/putget.c:NCvcmaxcontig: anchor 'if\\s*\\((\\*edp < \\*shp)\\)\\s*\\{' matched 0 times (need exactly 1) *)
+Definition translator_failed : True := I I.
